@@ -64,3 +64,111 @@ pub fn ask(script: &str) -> Result<Vec<Opinion>, String> {
 pub fn prelude() -> &'static str {
     "(set-option :produce-models true)\n(set-logic ALL)\n"
 }
+
+// ---------------------------------------------------------------------------------------------
+// solver-proposed assignments (a miter): z3 searches for an assignment under which two expressions
+// differ; the caller then *evaluates both with the reference evaluator* under that assignment. The
+// solver only proposes an input - it never judges - so a wrong or confused answer (or a defect of the
+// writer that produced the text) can at worst lose a detection, never raise an alarm.
+// ---------------------------------------------------------------------------------------------
+
+use crate::refeval::Env;
+use crate::refval::Val;
+use patronus::expr::{Context, ExprRef, Type, TypeCheck};
+use patronus::smt::{SmtCommand, serialize_cmd};
+
+fn text_of(ctx: &Context, cmd: &SmtCommand) -> Option<String> {
+    crate::engine::guard(|| {
+        let mut out = Vec::new();
+        serialize_cmd(&mut out, Some(ctx), cmd).expect("write to Vec");
+        String::from_utf8_lossy(&out).to_string()
+    })
+    .ok()
+}
+
+pub enum Miter {
+    /// an assignment under which z3 says the two expressions differ
+    Differ(Env),
+    /// z3 proved them equal (unsat)
+    Equal,
+    /// no usable answer (time limit, array-valued symbols printed as functions, unportable names, ...)
+    NoAnswer,
+}
+
+/// Asks z3 (5 s limit) for an assignment of `syms` under which `a` and `b` differ.
+pub fn distinguish(ctx: &Context, a: ExprRef, b: ExprRef, syms: &[ExprRef]) -> Miter {
+    if !std::path::Path::new(SOLVERS[0].1).exists() {
+        return Miter::NoAnswer;
+    }
+    for s in syms {
+        let n = ctx.get_symbol_name(*s).unwrap_or("");
+        let first = n.chars().next().unwrap_or('0');
+        let portable = n.is_ascii()
+            && !n.chars().any(|c| c.is_control() || c == '|' || c == '\\')
+            && (smtref::needs_quoting(n) || first.is_ascii_alphabetic() || first == '_');
+        if !portable || matches!(s.get_type(ctx), Type::Array(_)) {
+            return Miter::NoAnswer;
+        }
+    }
+    let mut script = String::from(prelude());
+    for s in syms {
+        let Some(d) = text_of(ctx, &SmtCommand::DeclareConst(*s)) else { return Miter::NoAnswer };
+        script.push_str(&d);
+        script.push('\n');
+    }
+    let term = |e: ExprRef| -> Option<String> {
+        let t = text_of(ctx, &SmtCommand::GetValue(e))?;
+        let t = t.trim();
+        Some(t.strip_prefix("(get-value (")?.strip_suffix("))")?.to_string())
+    };
+    let (Some(ta), Some(tb)) = (term(a), term(b)) else { return Miter::NoAnswer };
+    script.push_str(&format!("(assert (distinct {} {}))\n(check-sat)\n", ta, tb));
+    if !syms.is_empty() {
+        let names: Vec<String> = syms.iter().map(|s| smtref::print_symbol(ctx.get_symbol_name(*s).unwrap())).collect();
+        script.push_str(&format!("(get-value ({}))\n", names.join(" ")));
+    }
+    let (_, path, _) = SOLVERS[0];
+    let out = {
+        let mut child = match Command::new(path).args(["-in", "-T:5"]).stdin(Stdio::piped()).stdout(Stdio::piped()).stderr(Stdio::null()).spawn() {
+            Ok(c) => c,
+            Err(_) => return Miter::NoAnswer,
+        };
+        {
+            let mut stdin = child.stdin.take().unwrap();
+            let _ = stdin.write_all(script.as_bytes());
+            let _ = stdin.write_all(b"\n(exit)\n");
+        }
+        let mut o = String::new();
+        let _ = child.stdout.take().unwrap().read_to_string(&mut o);
+        let _ = child.wait();
+        o
+    };
+    let replies = smtref::read_all(&out).unwrap_or_default();
+    match replies.first().and_then(|r| r.sym()) {
+        Some("unsat") => Miter::Equal,
+        Some("sat") => {
+            let mut env = Env::default();
+            if syms.is_empty() {
+                return Miter::Differ(env);
+            }
+            let Some(pairs) = replies.get(1).and_then(|r| r.list()) else { return Miter::NoAnswer };
+            if pairs.len() != syms.len() {
+                return Miter::NoAnswer;
+            }
+            for (s, p) in syms.iter().zip(pairs.iter()) {
+                let Some(p) = p.list().filter(|p| p.len() == 2) else { return Miter::NoAnswer };
+                let Ok(v) = smtref::eval(&p[1], &smtref::Scopes::new(), &smtref::ValEnv::new(), &mut vec![]) else {
+                    return Miter::NoAnswer;
+                };
+                let v: Val = v.to_val();
+                match (&v, s.get_type(ctx)) {
+                    (Val::Bv(b), Type::BV(w)) if b.w == w => {}
+                    _ => return Miter::NoAnswer,
+                }
+                env.insert(*s, v);
+            }
+            Miter::Differ(env)
+        }
+        _ => Miter::NoAnswer,
+    }
+}
